@@ -79,7 +79,7 @@ def run(ctx) -> None:
     ctx.rule("C05.magnitude", "T5: cut-offs are applied to magnitudes", floor=5)
     ctx.rule("C05.nonedefault", "T5: optional arguments are defaulted only when None", floor=3)
     ctx.rule("C05.formulation", "formulation: every FVA solve is the documented problem (oracle evaluation over the LP model)", floor=7)
-    ctx.guard(fa.check_fva_step, ctx, "C05.step")
+    ctx.guard(fa.check_fva_step, ctx, "C05.step", covered_by="C05.formulation")
     ctx.guard(fvaform.check_fva_formulation, ctx, "C05.formulation")
     ctx.guard(fa.check_orientation, ctx, "C05.orient", ORIENT_SITES, formulation_rule={"flux_variability_analysis": "C05.formulation", "loopless_solution": "C17.formulation", "fix_objective_as_constraint": "C05.formulation"})
     ctx.guard(fa.check_pin_unconditional, ctx, "C05.pin")
